@@ -50,10 +50,10 @@ def gen(rng, tier):
             c["Text"] = L.layout(rng, s)
             c["kind"] += "+layout"
         cases.append(c)
-    # a program that handles several structures at once: four dozen frames sliced and numbered at the same time, each in a
+    # a program that handles several structures at once: frames sliced and numbered at the same time, two dozen per process, four (quick) or sixteen processes, each in a
     # goroutine of its own in one process - every one must be numbered as it is alone
-    for i in range(48 if tier == "quick" else 192):
-        c = core.case_from_struct(G.gen_frame(rng, max_cells=3), Weight=core.weights(i), Concurrent=True)
+    for i in range(96 if tier == "quick" else 384):
+        c = core.case_from_struct(G.gen_frame(rng, max_cells=3), Weight=core.weights(i), Concurrent=1 + i % 4)
         c["kind"] += "+concurrent"
         cases.append(c)
     return cases
